@@ -42,7 +42,7 @@ class AInt:
         return f"AInt({self.v if self.v is not None else B.show_vec(self.bits) if self.bits is not None else '?'})"
     def vec(self):
         if self.v is not None:
-            return B.const_bits(self.v) if self.v >= 0 else None
+            return B.const_bits(self.v) if isinstance(self.v, int) and self.v >= 0 else None
         return self.bits
     def same(self, other):
         if self.v is not None and other.v is not None:
@@ -453,7 +453,7 @@ class Interp:
             return AList(a.items + b.items)
         if isinstance(a, AInt) and isinstance(b, AInt):
             if a.v is not None and b.v is not None:
-                f = {ast.Add: _op.add, ast.Sub: _op.sub, ast.Mult: _op.mul, ast.FloorDiv: _op.floordiv, ast.Mod: _op.mod, ast.LShift: _op.lshift, ast.RShift: _op.rshift,
+                f = {ast.Add: _op.add, ast.Sub: _op.sub, ast.Mult: _op.mul, ast.FloorDiv: _op.floordiv, ast.Mod: _op.mod, ast.Div: _op.truediv, ast.LShift: _op.lshift, ast.RShift: _op.rshift,
                      ast.BitAnd: _op.and_, ast.BitOr: _op.or_, ast.BitXor: _op.xor}.get(type(op))
                 if f is None:
                     return AOpaque('int op')
@@ -594,6 +594,8 @@ class Interp:
             cdef = self.classes[f.id]
             obj = AObj()
             obj.attrs['__class__'] = f.id
+            obj.attrs['__classdef__'] = cdef
+            obj.attrs.update(class_constants(self, cdef))
             init = [n for n in cdef.body if isinstance(n, ast.FunctionDef) and n.name == '__init__']
             if init:
                 self.call_function(init[0], [obj] + args, kw)
@@ -663,6 +665,9 @@ class Interp:
         if isinstance(f, ast.Attribute):
             m = f.attr
             # bytes.fromhex(x)
+            if isinstance(f.value, ast.Name) and f.value.id == 'math' and m in ('ceil', 'floor', 'trunc') and len(args) == 1 and isinstance(args[0], AInt) and args[0].v is not None:
+                import math as _m
+                return AInt(int(getattr(_m, m)(args[0].v)))
             if isinstance(f.value, ast.Name) and f.value.id == 'bytes' and m == 'fromhex':
                 x = args[0]
                 if isinstance(x, AStr):
@@ -781,12 +786,41 @@ class Interp:
                             pieces.extend(o.pieces)
                         pieces.extend(x.pieces if isinstance(x, AStr) else [('opaque', repr(x))])
                     return AStr(pieces)
+            if isinstance(o, AObj) and isinstance(o.attrs.get('__classdef__'), ast.ClassDef):
+                own = [n for n in o.attrs['__classdef__'].body if isinstance(n, ast.FunctionDef) and n.name == m]
+                if own:
+                    return self.call_function(own[0], [o] + args, kw)
             if isinstance(o, AObj) and m in self.methods:
                 fnm = self.methods[m]
                 static = any(isinstance(d, ast.Name) and d.id == 'staticmethod' for d in fnm.decorator_list)
                 return self.call_function(fnm, ([] if static else [o]) + args, kw)
             return AOpaque(f".{m}()")
         return AOpaque('call')
+
+def class_constants(interp, cdef):
+    """class-level NAME = <literal> bindings -> abstract attribute values"""
+    out = {}
+    for n in cdef.body:
+        tgt = None; val = None
+        if isinstance(n, ast.Assign) and len(n.targets) == 1 and isinstance(n.targets[0], ast.Name):
+            tgt, val = n.targets[0].id, n.value
+        elif isinstance(n, ast.AnnAssign) and isinstance(n.target, ast.Name) and n.value is not None:
+            tgt, val = n.target.id, n.value
+        if tgt is None:
+            continue
+        try:
+            v = ast.literal_eval(val)
+        except Exception:
+            continue
+        if isinstance(v, bool) or v is None:
+            out[tgt] = v
+        elif isinstance(v, int):
+            out[tgt] = AInt(v)
+        elif isinstance(v, bytes):
+            out[tgt] = ABytes([('c', x) for x in v])
+        elif isinstance(v, str):
+            out[tgt] = AStr([('lit', v)])
+    return out
 
 def _load(t):
     if isinstance(t, ast.Name):
